@@ -136,7 +136,8 @@ def rules_c07(ctx):
     # the position estimate of a level is also the centre of the window searched in the level below: its conversion and the
     # width of `estimate + intercept` matter for the work bound as they do for the returned range
     return ([o for o in S.rule_agree_eps(ctx, 'pgm', ctx.units) if 'recursive' in o.arm] + S.rule_window_form(ctx, 'pgm', ctx.units) +
-            S.rule_conv_range(ctx, 'pgm', ctx.units))
+            S.rule_conv_range(ctx, 'pgm', ctx.units) + S.rule_cap(ctx, 'pgm', ctx.units, fnames=('segment_for_key',)) +
+            [o for o in p_segmentation.rule_closing(ctx) if o.rule == 'SENTINEL' and str(o.arm).endswith('upper')])
 
 
 def rules_c08(ctx):
@@ -191,6 +192,7 @@ PROPS['C07'] = {
     'decides': [
         'AGREE-EPS-REC: upper levels are segmented with EpsilonRecursive (the call inside build()\'s level loop passes epsilon_recursive, whose source is the template parameter)',
         'WINDOW-FORM: per level lo = level_begin + SUB(pos, EpsilonRecursive+1); in the binary-search arm hi = level_begin + ADD(pos, EpsilonRecursive, level_size) with level_size the size of the searched level: at most 2*EpsilonRecursive+3 segments are inspected in that arm',
+        'CAP / SENTINEL (upper levels): the position handed to the next level down is min(model, intercept of the successor segment), and the terminator segments that close an upper level carry the size of the level below as intercept (decided on build() with all local closures inlined, with a reaching-definitions check that the size is not reassigned between the segmentation and the push) - otherwise the cap collapses the prediction through the last segment of a level and the scan restarts far from the responsible segment',
     ],
     'not_decided': 'the bound for the linear-scan arm (the loop runs until found; its length is the numeric epsilon guarantee) and the per-level size bound',
     'explanation': 'Clause-level static claim for C07: the two regressions the property names (wrong epsilon for an upper level, widened window) change these forms.',
